@@ -22,7 +22,7 @@ PROPS = {
     "C01": {
         "groups": {"e2e_usart": Q(24000, 150000), "e2e_serial": Q(24000, 150000), "e2e_can": Q(24000, 150000)},
         "rule": "generated runs of two real Protocol nodes joined by a recorded wire (events of all 16 kinds, addresses incl. broadcast and the sender's own, 0-4 handlers with random capture flags, 'no data yet' inserted by a seeded schedule: between any two bytes on USART, between link frames on the serial port, between frames on CAN); distinct by input text; non-trivial = at least two events sent and at least one handler registered",
-        "explanation": "theorems end_to_end_{usart,can,serial} (model = specification for every event list, address pair, handler table and schedule) + differential runs of the real sender/receiver/protocol stack against the model; a differing line is a concrete C01 violation because the model's answer is the specified handler log",
+        "explanation": "theorems C01_two_nodes_{usart,can,serial} (both nodes in the model: send_packet per event over a link sender under back-pressure, receiver polling under any schedule, any handler tables) and C01_end_to_end_* (model = specification for every event list, address pair, handler table and schedule) + differential runs of two real Protocol nodes joined by the recorded wire; a differing line is a concrete C01 violation because the model's answer is the specified handler log (order among the handlers of one packet not compared)",
     },
     "C02": {
         "groups": {"frag_rt_enum": Q(900, 86019), "frag_rt": Q(36000, 180000)},
@@ -96,7 +96,7 @@ PROPS = {
     "C19": {
         "groups": {"rxh_usart": Q(60000, 400000), "rxh_serial": Q(60000, 400000), "rxh_can": Q(60000, 400000)},
         "rule": "the hostile histories of C06, with a counting global allocator read after every poll; distinct by input text; non-trivial = at least 3 polls returned something other than 'nothing'",
-        "explanation": "PARTIAL: theorems rxStep_inv, run_inv, usartStep_phase bound the model's bookkeeping (frames held <= frames announced <= 4096, body buffer <= 255, nothing held after delivery/error); the allocator itself is measured: live bytes after each poll <= base + 1024 + 64 * frames announced (model state), = base when the model holds nothing, peak inside a poll bounded likewise",
+        "explanation": "PARTIAL: theorems C19_usart_history / C19_serial_history / C19_can_history (for EVERY device history, after every try_get_packet call: body buffer below the announced length <= 255, frames held <= frames announced <= 4096, the state of a fresh receiver right after a delivery or a reassembly error, no panic) bound the model's bookkeeping; the allocator itself is measured against it: live bytes after each call <= base + 1024 + 64 * frames announced (model state), = base when the model holds nothing, = base right after every delivered packet (evaluated on the implementation's own numbers even when its results differ from the model's), absolute ceiling inside a call",
         "assumptions": ["heap behaviour is measured at run time, not proved: allocator, Vec growth policy and temporaries are outside the model"],
     },
 }
